@@ -112,6 +112,11 @@ class World:
                 stg.subject_to(x1 <= foreign)
             if here and f == "constant_false_constraint":
                 stg.subject_to(ca.MX(2) <= ca.MX(1))
+            if here and f == "false_horizon_relation":
+                # false only once the (numeric) horizon is written in: tf is 2.5 resp. 3.5
+                stg.subject_to(stg.tf <= 1.25)
+            if here and f == "false_horizon_relation_T":
+                stg.subject_to(stg.T + stg.t0 == 10.0)
             if here and f == "unknown_grid_subject_to":
                 stg.subject_to(x1 <= 5, grid="foo")
             if here and f == "unknown_grid_subject_to_boundary":
@@ -162,7 +167,7 @@ def catalogue(method, discrete):
         out.append(("no_method", {"stage": s}))
         for f in ("signal_objective", "nonscalar_objective", "set_value_on_state", "set_value_on_variable", "set_value_on_foreign", "set_initial_on_parameter", "set_initial_on_foreign",
                   "unknown_grid_subject_to", "unknown_grid_subject_to_boundary", "unknown_grid_integral", "unknown_grid_variable", "unknown_grid_parameter", "unknown_grid_sample",
-                  "foreign_in_ode", "foreign_in_constraint", "foreign_in_objective", "constant_false_constraint"):
+                  "foreign_in_ode", "foreign_in_constraint", "foreign_in_objective", "constant_false_constraint", "false_horizon_relation", "false_horizon_relation_T"):
             out.append((f, {"stage": s}))
         if not discrete:
             out.append(("T_in_ode", {"stage": s}))
